@@ -10,6 +10,8 @@ import (
 	"io"
 	"net"
 	"os"
+	"runtime"
+	"strings"
 	"sync"
 	"syscall"
 	"time"
@@ -37,11 +39,50 @@ func newHalf(capacity int) *half {
 	return h
 }
 
+// who closed a connection whose own side is then used again (diagnosis of aborted exchanges)
+var simnetNotes struct {
+	mu sync.Mutex
+	l  []string
+}
+
+func simnetNote(s string) {
+	simnetNotes.mu.Lock()
+	if len(simnetNotes.l) < 8 {
+		simnetNotes.l = append(simnetNotes.l, s)
+	}
+	simnetNotes.mu.Unlock()
+}
+
+func takeSimnetNotes() []string {
+	simnetNotes.mu.Lock()
+	defer simnetNotes.mu.Unlock()
+	l := simnetNotes.l
+	simnetNotes.l = nil
+	return l
+}
+
+// callers returns a compact stack (function names only) of the caller.
+func callers() string {
+	pc := make([]uintptr, 24)
+	n := runtime.Callers(3, pc)
+	fr := runtime.CallersFrames(pc[:n])
+	var out []string
+	for {
+		f, more := fr.Next()
+		out = append(out, f.Function)
+		if !more {
+			break
+		}
+	}
+	return strings.Join(out, " < ")
+}
+
 type simConn struct {
 	rd, wr        *half
 	local, remote simAddr
 	mu            sync.Mutex
 	closed        bool
+	closedBy      string
 	rdl, wdl      time.Time
 	rdlT, wdlT    *time.Timer
 }
@@ -69,12 +110,20 @@ func (c *simConn) deadline(read bool) time.Time {
 	return c.wdl
 }
 
+func (c *simConn) closedUse(op string) {
+	c.mu.Lock()
+	by := c.closedBy
+	c.mu.Unlock()
+	simnetNote(fmt.Sprintf("%s on %s->%s after its own Close by [%s]; %s called from [%s]", op, c.local, c.remote, by, op, callers()))
+}
+
 func (c *simConn) Read(p []byte) (int, error) {
 	h := c.rd
 	h.mu.Lock()
 	defer h.mu.Unlock()
 	for {
 		if c.isClosed() {
+			c.closedUse("Read")
 			return 0, net.ErrClosed
 		}
 		if h.reset {
@@ -115,15 +164,19 @@ func (c *simConn) Write(p []byte) (int, error) {
 			return written, nil
 		}
 		if c.isClosed() {
+			c.closedUse("Write")
 			return written, net.ErrClosed
 		}
 		if h.reset {
+			simnetNote(fmt.Sprintf("Write on %s->%s: reset after %d of %d bytes; called from [%s]", c.local, c.remote, written, written+len(p), callers()))
 			return written, &net.OpError{Op: "write", Net: "sim", Err: syscall.ECONNRESET}
 		}
 		if h.rclosed {
+			simnetNote(fmt.Sprintf("Write on %s->%s: peer closed after %d of %d bytes; called from [%s]", c.local, c.remote, written, written+len(p), callers()))
 			return written, &net.OpError{Op: "write", Net: "sim", Err: syscall.EPIPE}
 		}
 		if h.wclosed {
+			simnetNote(fmt.Sprintf("Write on %s->%s after CloseWrite; called from [%s]", c.local, c.remote, callers()))
 			return written, &net.OpError{Op: "write", Net: "sim", Err: errors.New("write after CloseWrite")}
 		}
 		if len(p) == 0 {
@@ -155,6 +208,7 @@ func (c *simConn) Close() error {
 		return nil
 	}
 	c.closed = true
+	c.closedBy = callers()
 	if c.rdlT != nil {
 		c.rdlT.Stop()
 	}
